@@ -30,6 +30,10 @@ theorem c02_source_facts :
             "cache.gop.Reset", "cache.gop.Push", "cache.gop.Len", "cache.gop.Push"] IpcHub.Gen.progH264CachePack = true ∧
     subseq ["cache.getPalyloadType", "cache.l.Lock", "set cache.vps", "return", "set cache.sps", "return", "set cache.pps", "return",
             "cache.gop.Reset", "cache.gop.Push", "cache.gop.Len", "cache.gop.Push"] IpcHub.Gen.progHevcCachePack = true ∧
+    -- the payload classifiers (getPalyloadType, nalType of both caches) are the reviewed ones that
+    -- Model/MediaCache.lean mirrors statement by statement (hash of the printed body: any edit shows)
+    IpcHub.Gen.hashH264PayloadType = 15336468611961896817 ∧ IpcHub.Gen.hashH264NalType = 10879418973220888540 ∧
+    IpcHub.Gen.hashHevcPayloadType = 10988566405585208546 ∧ IpcHub.Gen.hashHevcNalType = 17511132945312526616 ∧
     -- a key frame of several slice packets: the key run (same RTP timestamp as the previous key slice) is
     -- tested before the GOP is touched, kept per cache, and cleared by Reset
     IpcHub.Gen.condsH264CachePack = ["rtppack.Channel != rtp.ChannelVideo", "sps", "pps",
